@@ -98,6 +98,7 @@ class MarginRule(cssrule.CSSRule):
 
     def _setMargin(self, margin):
         """Check if new keyword fits the rule it is used for."""
+        self._checkReadonly()
         n = self._normalize(margin)
 
         if n not in MarginRule.margins:
